@@ -329,6 +329,8 @@ def _api_value(name, val):
         return np.array(val, dtype=float)
     if name == "octree_cells":
         return np.array(val, dtype=int)
+    if name == "octree_cells_records":      # the other branch of the setter: an array of (I, J, K, NCells) records
+        return np.array([tuple(r) for r in val], dtype=[("I", "<i4"), ("J", "<i4"), ("K", "<i4"), ("NCells", "<i4")])
     if name in ("layers", "prisms"):
         return np.array(val, dtype=float)
     raise MachineryError(f"unknown setter {name}")
@@ -425,7 +427,7 @@ def _replay_walk(item):
                 value = _api_value(act, label["val"])
                 done.append(f"{act}={funcheck.short(label['val'], 60)}")
                 try:
-                    setattr(obj, act, value)
+                    setattr(obj, "octree_cells" if act == "octree_cells_records" else act, value)
                 except Exception as exc:  # pylint: disable=broad-except
                     bad(f"{kind.lower()}-setter-raises:{act}", f"setter refused: {type(exc).__name__}: {exc}")
                     return viol
